@@ -7,6 +7,9 @@
                                        oracle's violation counters are observed
             (n2 n<seed>)               the concurrent scenarios once more in a race-enabled build:
                                        observed (n0) = the race detector reported nothing
+            (n3 (round ...))           operations that meet: subscriptions to one type and removers
+                                       released together by goroutines, events released after all of
+                                       them have returned; format below at [meet_round]
      op   = (n0 x<type> n<label>)      SubscribeEvent / SubscribeMessages
             (n1 n<label>)              SubscribeToAll
             (n2 n<k>)                  call the remover returned by the k-th subscription
@@ -70,6 +73,60 @@ Definition seen_of (log : list (nat * sub)) (k : nat) : val :=
 
 Definition n_conc_counters : nat := 6.
 
+(* ---- kind 3: operations that meet ---------------------------------------------
+   round = (x<type> n<pre> n<k> n<rm>): <pre> subscriptions to the type one after the other;
+   then <k> more subscriptions to it and the removers of the first <rm> are called by
+   goroutines released together; after ALL of them have returned a decoy event of another
+   type and an event of the type are dispatched; then every remover is called and the event
+   is dispatched once more.  Every interleaving of the calls that met amounts to an atomic
+   history (C13_schedules_atomic) and what is observed - registry sizes, how often each
+   subscription is invoked - is the same for all of them; the model runs one: the
+   removers first, then the subscriptions.  A permanent subscribe-to-all witness is
+   registered before the first round. *)
+Fixpoint sub_n (n : nat) (t : bytes) (r : reg) : reg * list handle :=
+  match n with
+  | O => (r, [])
+  | S m =>
+      let '(r1, h) := add_subscriber t 0%N r in
+      let '(r2, hs) := sub_n m t r1 in
+      (r2, h :: hs)
+  end.
+
+Definition remove_all (hs : list handle) (r : reg) : reg := fold_left (fun r h => remove h r) hs r.
+
+Definition times_invoked (inv : list sub) (h : handle) : nat :=
+  length (filter (fun e : sub => handle_eqb (fst e) h) inv).
+
+(* the type of the decoy event of a round on type t: "message" for the unnamed type, unnamed otherwise *)
+Definition lit_message : bytes := [109; 101; 115; 115; 97; 103; 101]%N.
+Definition decoy_type (t : bytes) : bytes := match t with [] => lit_message | _ => [] end.
+
+Definition meet_round (witness : handle) (r : reg) (rd : val) : reg * val :=
+  let t := as_b (nth_val 0 rd) in
+  let pre := as_nat (nth_val 1 rd) in
+  let k := as_nat (nth_val 2 rd) in
+  let rm := Nat.min (as_nat (nth_val 3 rd)) pre in
+  let '(r1, hpre) := sub_n pre t r in
+  let r2 := remove_all (firstn rm hpre) r1 in
+  let '(r3, hnew) := sub_n k t r2 in
+  let hs := hpre ++ hnew in
+  let decoy := dispatch (decoy_type t) r3 in
+  let inv := dispatch t r3 in
+  let r4 := remove_all hs r3 in
+  let inv2 := dispatch t r4 in
+  (r4, VL [enc_counts (counts r3);
+           VL (map (fun h => vnat (times_invoked inv h)) hs);
+           VL (map (fun h => vnat (times_invoked decoy h)) hs);
+           enc_counts (counts r4);
+           VL (map (fun h => vnat (times_invoked inv2 h)) hs);
+           vnat (times_invoked (decoy ++ inv ++ inv2) witness)]).
+
+Fixpoint meet_rounds (witness : handle) (r : reg) (rds : list val) : list val :=
+  match rds with
+  | [] => []
+  | rd :: rest => let '(r', o) := meet_round witness r rd in o :: meet_rounds witness r' rest
+  end.
+
 Definition run_callbacks (i : val) : val :=
   match as_n (nth_val 0 i) with
   | 0%N =>
@@ -77,6 +134,9 @@ Definition run_callbacks (i : val) : val :=
       let '(outs, log) := cb_exec 0 reg_empty [] ops in
       VL [VL outs; VL (map (seen_of log) (seq 0 (count_subs ops)))]
   | 1%N => VL (repeat (VN 0) n_conc_counters)
+  | 3%N =>
+      let '(r0, w) := add_subscriber_all 0%N reg_empty in
+      VL (meet_rounds w r0 (as_l (nth_val 1 i)))
   | _ => VL [VN 0]     (* the race detector reports nothing *)
   end.
 
@@ -155,8 +215,40 @@ Definition named_at (k : nat) (outs : list val) : list N :=
               then [N.of_nat (fst p)] else [])
            (combine (seq 0 (length outs)) outs).
 
+(* Kind 3, from the property text.  When the round's events are released every Subscribe* call
+   and every remover call of the round has returned, so the subscriptions in force are: the
+   <pre> earlier ones except the first <rm> (their removers were called), and the <k> new ones -
+   whatever the order in which the calls that met took effect.  The event must be passed exactly
+   once to each of them and not to the removed ones; the decoy (another type) to none of them;
+   after every remover has been called, the event to none of them; the registry holds exactly
+   the subscriptions in force (one type entry if there is one, none otherwise) next to the
+   to-all witness, which sees all three events of the round. *)
+Definition all_eq (n : nat) (l : list val) : bool := forallb (fun v => (as_nat v =? n)) l.
+
+Definition meet_round_ok (rd out : val) : bool :=
+  let pre := as_nat (nth_val 1 rd) in
+  let k := as_nat (nth_val 2 rd) in
+  let rm := Nat.min (as_nat (nth_val 3 rd)) pre in
+  let inforce := pre - rm + k in
+  let got := as_l (nth_val 1 out) in
+  val_eqb_simple (nth_val 0 out) (VL [vnat inforce; vnat 1; vnat (if inforce =? 0 then 0 else 1)]) &&
+  (length got =? pre + k) &&
+  all_eq 0 (firstn rm got) && all_eq 1 (skipn rm got) &&
+  (length (as_l (nth_val 2 out)) =? pre + k) && all_eq 0 (as_l (nth_val 2 out)) &&
+  val_eqb_simple (nth_val 3 out) (VL [vnat 0; vnat 1; vnat 0]) &&
+  (length (as_l (nth_val 4 out)) =? pre + k) && all_eq 0 (as_l (nth_val 4 out)) &&
+  val_eqb_simple (nth_val 5 out) (vnat 3).
+
+Fixpoint meet_rounds_ok (rds outs : list val) : bool :=
+  match rds, outs with
+  | [], [] => true
+  | rd :: rds', out :: outs' => meet_round_ok rd out && meet_rounds_ok rds' outs'
+  | _, _ => false
+  end.
+
 Definition holds_callbacks (i o : val) : bool :=
   match as_n (nth_val 0 i) with
+  | 3%N => match o with VL outs => meet_rounds_ok (as_l (nth_val 1 i)) outs | _ => false end
   | 0%N =>
       let ops := as_l (nth_val 2 i) in
       let outs := as_l (nth_val 0 o) in
